@@ -55,13 +55,57 @@ Qed.
 Lemma forallb_done (ws : list op) : forallb is_done (map (fun _ => ODone) ws) = true.
 Proof. induction ws; cbn; auto. Qed.
 
+(* a write that reports an error has not touched the buffer (only an over-limit WriteLimitString reports one) *)
+Theorem failed_write_identity bs w : is_write w = true -> is_err (fst (bstep bs w)) = true -> snd (bstep bs w) = bs.
+Proof.
+  destruct w; cbn [is_write]; try discriminate; intros _; cbn [bstep fst snd is_err]; try discriminate.
+  destruct (limit <? uwrap 32 (zlen s)); cbn [fst snd is_err]; [reflexivity|discriminate].
+Qed.
+Lemma refused_step w bs : refused w = true -> bstep bs w = (OErr ESizeLimit, bs).
+Proof. destruct w; cbn [refused]; try discriminate. intros H. cbn [bstep]. now rewrite H. Qed.
+Lemma valid_cases w : valid w = true -> (refused w = true) \/ (refused w = false /\ wok w = true).
+Proof.
+  unfold valid. destruct (refused w) eqn:R; [now left|]. rewrite orb_false_r. intros H. right. now split.
+Qed.
+
+Lemma filter_refused w ws : refused w = true -> filter accepted (w :: ws) = filter accepted ws.
+Proof. intros R. cbn [filter]. unfold accepted at 1. now rewrite R. Qed.
+Lemma filter_accepted w ws : refused w = false -> filter accepted (w :: ws) = w :: filter accepted ws.
+Proof. intros R. cbn [filter]. unfold accepted at 1. now rewrite R. Qed.
+
+(* writes, some of them refused: the accepted ones append their encodings, the refused ones change nothing *)
+Lemma writes_run_v : forall ws bs, forallb is_write ws = true -> forallb valid ws = true ->
+  brun bs ws = (map wout ws, bs ++ enc_all (filter accepted ws))
+  /\ forallb is_write (filter accepted ws) = true /\ forallb wok (filter accepted ws) = true.
+Proof.
+  induction ws as [|w ws IH]; intros bs Hi Hv.
+  - cbn [brun map filter]. unfold enc_all. cbn. rewrite app_nil_r. repeat split.
+  - cbn [forallb] in Hi, Hv. apply andb_prop in Hi as [Hi1 Hi2]. apply andb_prop in Hv as [Hv1 Hv2].
+    cbn [brun map]. destruct (valid_cases w Hv1) as [R|[R W]].
+    + rewrite (filter_refused w ws R). unfold wout at 1. rewrite R.
+      rewrite (refused_step w bs R). destruct (IH bs Hi2 Hv2) as (E & A & B). rewrite E.
+      split; [reflexivity|]. split; assumption.
+    + rewrite (filter_accepted w ws R). unfold wout at 1. rewrite R.
+      rewrite (write_step w bs Hi1 W). destruct (IH (bs ++ enc_op w) Hi2 Hv2) as (E & A & B). rewrite E.
+      rewrite enc_all_cons, app_assoc. cbn [forallb]. rewrite Hi1, W, A, B.
+      split; [reflexivity|]. split; reflexivity.
+Qed.
+
+Theorem roundtrip_with_refused ws : forallb is_write ws = true -> forallb valid ws = true ->
+  brun [] (ws ++ map reader_of (filter accepted ws)) = (map wout ws ++ map val_of (filter accepted ws), []).
+Proof.
+  intros Hi Hv. destruct (writes_run_v ws [] Hi Hv) as (E & A & B).
+  rewrite brun_app, E. cbn [fst snd app]. now rewrite (reads_run_nil _ A B).
+Qed.
+
 Lemma round_sound ws : forallb is_write ws = true -> round_ok ws (fst (brun [] (round_ops ws))) = true.
 Proof.
-  intros Hi. unfold round_ok. destruct (forallb wok ws) eqn:Hw; [|reflexivity].
-  unfold round_ops. rewrite brun_app. rewrite (writes_run ws [] Hi Hw). cbn [fst snd app brun bstep].
-  rewrite brun_app. rewrite (reads_run_nil ws Hi Hw). cbn [fst snd brun bstep].
-  assert (L : length (map (fun _ : op => ODone) ws) = length ws) by apply map_length.
-  rewrite (firstn_exact _ _ _ L), (skipn_exact _ _ _ L). rewrite forallb_done. cbn [is_bytes andb].
+  intros Hi. unfold round_ok. destruct (forallb valid ws) eqn:Hv; [|reflexivity].
+  destruct (writes_run_v ws [] Hi Hv) as (E & A & B).
+  unfold round_ops. rewrite brun_app, E. cbn [fst snd app brun bstep].
+  rewrite brun_app. rewrite (reads_run_nil _ A B). cbn [fst snd brun bstep].
+  assert (L : length (map wout ws) = length ws) by apply map_length.
+  rewrite (firstn_exact _ _ _ L), (skipn_exact _ _ _ L). rewrite outs_eqb_refl. cbn [is_bytes andb].
   change (zlen []) with 0. apply outs_eqb_refl.
 Qed.
 
@@ -335,9 +379,34 @@ Proof.
   - cbn [fst]. apply Z.leb_le. apply zlen_nonneg.
 Qed.
 
-Lemma hist_sound : forall ops init, hist_ok ops (fst (brun init ops)) = true.
+Lemma rewrite_at_len bs pos p : zlen (snd (rewrite_at bs pos p)) = zlen bs.
 Proof.
-  induction ops as [|o ops IH]; intros init; cbn [brun]; [reflexivity|].
-  pose proof (shape_sound init o) as Hs. destruct (bstep init o) as [out bs']. specialize (IH bs').
-  destruct (brun bs' ops) as [outs fin]. cbn [fst hist_ok] in *. now rewrite Hs, IH.
+  unfold rewrite_at. destruct ((pos <? 0) || (zlen bs <? pos)) eqn:E; cbn [snd]; [reflexivity|].
+  apply orb_false_elim in E as [E1 E2]. apply Z.ltb_ge in E1, E2. unfold zlen. now rewrite splice_length by (unfold zlen in *; lia).
 Qed.
+
+(* what the monitor knows about the length is the length of the model state *)
+Definition known_ok (known : option Z) (bs : list Z) : Prop := match known with Some n => n = zlen bs | None => True end.
+
+Lemma known_step known bs o : known_ok known bs ->
+  len_ok known o (fst (bstep bs o)) = true /\ known_ok (next_known known o (fst (bstep bs o))) (snd (bstep bs o)).
+Proof.
+  intros K. destruct o; cbn [len_ok next_known is_write andb]; try (split; [reflexivity|exact I]).
+  - (* WLimStr: refused or accepted *)
+    cbn [bstep]. destruct (limit <? uwrap 32 (zlen s)); cbn [fst snd is_err]; split; auto; exact I.
+  - (* ReWrite *) split; [reflexivity|]. cbn [bstep]. destruct known; cbn [known_ok] in *; [|exact I]. now rewrite rewrite_at_len.
+  - (* ReWriteU32 *) split; [reflexivity|]. cbn [bstep]. destruct known; cbn [known_ok] in *; [|exact I]. now rewrite rewrite_at_len.
+  - (* Len *) cbn [bstep fst snd obs_len known_ok]. split; [|reflexivity]. destruct known; [|reflexivity]. cbn in K. subst. apply Z.eqb_refl.
+  - (* Bytes *) cbn [bstep fst snd obs_len known_ok]. split; [|reflexivity]. destruct known; [|reflexivity]. cbn in K. subst. apply Z.eqb_refl.
+  - (* Reset *) split; reflexivity.
+Qed.
+
+Lemma hist_sound' : forall ops bs known, known_ok known bs -> hist_ok' known ops (fst (brun bs ops)) = true.
+Proof.
+  induction ops as [|o ops IH]; intros bs known K; cbn [brun]; [reflexivity|].
+  pose proof (shape_sound bs o) as Hs. destruct (known_step known bs o K) as [Hl Hk].
+  destruct (bstep bs o) as [out bs']. cbn [fst snd] in *. specialize (IH bs' _ Hk).
+  destruct (brun bs' ops) as [outs fin]. cbn [fst hist_ok'] in *. now rewrite Hs, Hl, IH.
+Qed.
+Lemma hist_sound ops init : hist_ok init ops (fst (brun init ops)) = true.
+Proof. apply hist_sound'. reflexivity. Qed.
